@@ -5,7 +5,7 @@
     [chunks]; [spec_parse] iterates a pure one-frame step over the WHOLE stream. *)
 From Coq Require Import List NArith Bool.
 From TwLib Require Import Seg.
-From C35 Require Import Model Proofs Roundtrip.
+From C35 Require Import Model Proofs Roundtrip Rekey.
 Import ListNotations.
 Local Open Scope N_scope.
 
@@ -100,3 +100,19 @@ Theorem sender_framing_wellformed : forall bs n, 4 <= bs ->
   (5 + n + pad_len bs n) mod bs = 0 /\ 4 <= pad_len bs n /\ pad_len bs n <= bs + 3.
 Proof. exact pad_len_ok. Qed.
 Print Assumptions sender_framing_wellformed.
+
+(** Re-keying: for every history of sendPacket calls, key-exchange starts and NEWKEYS arrivals on one side (any number
+    of re-keys; the key-exchange messages themselves are opaque): the messages that have to wait for the end of a key
+    exchange ([held]: every service message) go to the framing layer in exactly the order they were handed to
+    sendPacket, those already sent followed by those still queued; the messages allowed during key exchange go out at
+    once, in order; and whenever no key exchange is in progress nothing is queued. *)
+Theorem payloads_sent_in_send_order_across_rekeys : forall ops,
+  let s := krun ops in
+  filter held (kwire s) ++ kq s = filter held (ksent ops) /\
+  filter (fun m => negb (held m)) (kwire s) = filter (fun m => negb (held m)) (ksent ops) /\
+  (inkex s = false -> kq s = [] /\ filter held (kwire s) = filter held (ksent ops)).
+Proof.
+  intros ops s. destruct (KInv_reach ops) as [Q I H F]. fold s in Q, I, H, F. repeat split; auto.
+  rewrite (I H0), app_nil_r in H. exact H.
+Qed.
+Print Assumptions payloads_sent_in_send_order_across_rekeys.
